@@ -668,7 +668,7 @@ func (s *Sym) evCall(env *Env, x ECall) TV {
 		if env.old == nil || len(x.Args) != 1 {
 			bad("slicesFrame(elemSort) needs an old state")
 		}
-		es, _ := s.P.specType(x.Args[0].(EIdent).Name)
+		es, _ := s.P.specType(typeArgString(x.Args[0]))
 		name := "E:" + sortTag(es)
 		ms := "(Array Int " + mapSortOfElem(es) + ")"
 		e1, e0 := s.getMap(env.st, name, ms), s.getMap(env.old, name, ms)
@@ -947,6 +947,23 @@ func (s *Sym) defineSpec(sf *SpecFunc) []string {
 	s.emit(fmt.Sprintf("(%s %s (%s) %s %s)", kw, q("spec:"+sf.Name), strings.Join(params, " "), ret, b.T))
 	s.specDefined[sf.Name] = true
 	return foot
+}
+
+// typeArgString renders an expression used as a type argument (T, *T, pkg.T, "[]*T").
+func typeArgString(e Expr) string {
+	switch x := e.(type) {
+	case EIdent:
+		return x.Name
+	case EStr:
+		return x.V
+	case EUn:
+		if x.Op == "*" {
+			return "*" + typeArgString(x.X)
+		}
+	case EField:
+		return typeArgString(x.X) + "." + x.Name
+	}
+	return e.String()
 }
 
 type recorder struct{ names []string }
